@@ -294,9 +294,14 @@ impl Gen {
       maxalign: r.pick(&[8, 16, 64]),
       retries: r.pick(&[1, 2, 5]),
       magic: r.below(65536) as u16,
+      offset: 0,
     };
     if matches!(p, Profile::File | Profile::BadFile) {
       cfg.backend = 2;
+    }
+    // a file-backed arena may start at an offset inside its file
+    if cfg.backend == 2 && r.chance(30) {
+      cfg.offset = r.pick(&[64u64, 4096, 4160, 8192]); // multiples of the largest type alignment used (a mapping offset that is not one makes every typed allocation misaligned)
     }
     let prefix = cfg.prefix();
     let base: u32 = if p == Profile::Buf {
@@ -1283,7 +1288,7 @@ impl Gen {
 
   fn profile_badfile(&mut self) {
     let c = self.cfg.clone().expect("cfg");
-    let (reserved, prefix, cap) = (c.reserved as u64, c.prefix() as u64, c.cap as u64);
+    let (reserved, prefix, cap) = (c.offset + c.reserved as u64, c.offset + c.prefix() as u64, c.cap as u64);
     // short mix prefix; the tail below has a budget of its own
     self.left = self.rng.range(2, 12) as usize;
     self.run_mix(usize::MAX, false);
@@ -1317,12 +1322,12 @@ impl Gen {
         self.emit(format!("mutate_file {} {v}", reserved + k));
       }
       1 => {
-        let n = self.rng.range(0, prefix + 8);
+        let n = if c.offset > 0 && self.rng.chance(70) { self.rng.range(c.offset.saturating_sub(4), prefix + 8) } else { self.rng.range(0, prefix + 8) };
         self.emit(format!("truncate_file {n}"));
       }
       2 => {
         let rnd = self.rng.range(0, 2 * cap);
-        let n = self.rng.pick(&[0, 1, prefix.saturating_sub(1), prefix, prefix + 8, cap, rnd]);
+        let n = self.rng.pick(&[0, 1, prefix.saturating_sub(1), prefix, prefix + 8, cap, c.offset + cap, rnd]);
         let seed = self.rng.next_u64();
         self.emit(format!("random_file {seed} {n}"));
       }
